@@ -9,19 +9,29 @@ def run(rep: Report, repo: Repo, tier: str) -> None:
              "src/cminx/parser/CMakeLexer.py")
     rep.assume("os.path.relpath/basename are location independent; re.sub('\\\\.cmake$', '', x) removes exactly a trailing '.cmake'",
                "'titles differ for different files' (injectivity) is not decided")
-    fsrules.rule_no_location_in_content(rep, repo, "C12-R1", only_names=True)
-    pathterms.rule_title_terms(rep, repo, "C12-R1b", "C12-R2", "C12-R3")
-    rule_prefix_default(rep, repo, "C12-R3d")
+    with rep.isolated():
+        fsrules.rule_no_location_in_content(rep, repo, "C12-R1", only_names=True)
+    with rep.isolated():
+        pathterms.rule_title_terms(rep, repo, "C12-R1b", "C12-R2", "C12-R3")
+    with rep.isolated():
+        rule_prefix_default(rep, repo, "C12-R3d")
     # the default prefix of one input must not leak into the next input of the same run
-    fsrules.rule_isolation(rep, repo, "C12-R3i")
-    writer_rules.rule_heading(rep, repo, "C12-R4")
-    misc_rules.rule_document_order(rep, repo, "C12-R5o", "C12-R5")
-    atn_rules.rule_doc_tokens(rep, repo, "C12-R5t")
-    rule_module_callback(rep, repo, "C12-R5m")
+    with rep.isolated():
+        fsrules.rule_isolation(rep, repo, "C12-R3i")
+    with rep.isolated():
+        writer_rules.rule_heading(rep, repo, "C12-R4")
+    with rep.isolated():
+        misc_rules.rule_document_order(rep, repo, "C12-R5o", "C12-R5")
+    with rep.isolated():
+        atn_rules.rule_doc_tokens(rep, repo, "C12-R5t")
+    with rep.isolated():
+        rule_module_callback(rep, repo, "C12-R5m")
     # "that doccomment's text becomes the module directive's content": line for line
     from . import bindings
-    bindings.rule_module_doc_verbatim(rep, repo, "C12-R5v")
-    fsrules.rule_topdir_test(rep, repo, "C12-R6")
+    with rep.isolated():
+        bindings.rule_module_doc_verbatim(rep, repo, "C12-R5v")
+    with rep.isolated():
+        fsrules.rule_topdir_test(rep, repo, "C12-R6")
 
 
 def rule_prefix_default(rep: Report, repo: Repo, rule: str) -> None:
